@@ -9,7 +9,8 @@
 (*   dump   : the shared expressions are unchanged after all evaluations                                              *)
 EXTENDS Grammar, Json, IOUtils
 Rec == ndJsonDeserialize(IOEnv.TRACE)
-T == Rec[1].table
+T0 == Rec[1].table
+TabOf(r) == IF "table" \in DOMAIN r THEN r.table ELSE T0
 VARIABLE i
 Init == i = 2
 Next == i <= Len(Rec) /\ i' = i + 1
@@ -20,6 +21,7 @@ Rename(t, sfx) ==
     [] t.k = "bin" -> Bin(t.o, Rename(t.l, sfx), Rename(t.r, sfx))
     [] OTHER -> t
 Judge(r) ==
+  LET T == TabOf(r) IN
   CASE r.act = "parse" ->
          LET d == Den(T, r.text) run == r.runs[1] IN
          IF run.outcome \notin {"ok", "err"} THEN "bad:" \o run.outcome
